@@ -11,7 +11,7 @@ import (
 
 func init() {
 	register("C17", propMeta{
-		Explanation: "E-GUARD + E-PAIR + E-CHAN + E-PROV on common/turbotunnel. O-1 errors only after close: in RedialPacketConn.ReadFrom/WriteTo every return with a non-nil error is reachable only through a '<-closed' select case; closed is closed only in closeWithError, called only from Close and from the err != nil edge of dialContext. O-2 one carrier at a time, each closed: in dialLoop a carrier obtained on the err == nil edge reaches conn.Close() on every path before the next dial or a return; exchange is called synchronously. O-3 no goroutine outlives its carrier: in every goroutine literal of the package each blocking select has a case on the connection's closed channel, and each unconditional send goes to a channel made by the enclosing call whose constant capacity covers the sends the goroutine can perform before returning. O-4 copy-on-enqueue, never block: every send on a packet queue is inside a select with default and sends a slice made by this invocation, filled by copy from the caller's buffer, of the caller's length; no []byte parameter flows into a send, a struct field or a global; both ReadFrom methods return copy(p, queued). O-5 close-once and publication order: close(closed) only inside closeOnce.Do and after err.Store. O-6 closed means failed: ReadFrom/WriteTo/QueueIncoming test closed (polling) before touching a queue. O-7 expiry shape: removeExpired pops only while now.Sub(oldest.LastSeen) >= timeout with the unscaled timeout; Less orders by LastSeen.Before; the sweeper sleeps timeout/2 and passes the same timeout; SendQueue refreshes LastSeen before heap.Fix/heap.Push; Pop closes the removed queue. Each clause is necessary: e.g. an unbuffered error channel retains one goroutine and carrier per redial. Added after the second seeding round: O-7 also requires that Push/Pop/Swap of clientMapInner have no static caller outside the interface methods (container/heap only); named methods started with go count as goroutine bodies when that go statement is their only use. Added after the third seeding round: the writer goroutine of exchange signals its end on every return (close or send on writeErrCh); the sweeper reads the clock after its sleep; the expiry function is identified by shape if renamed. Added after the fourth seeding round: O-8/C05 the client-map index obligations (Swap, Push, Pop, SendQueue keep byAddr equal to the heap position; no stale index after heap.Fix); the queue of a removed record may be closed by Pop or by every caller of heap.Pop/heap.Remove. Added after the fifth seeding round: O-5b a channel that is both closed and sent on has one mutex held at the close and at every send (D23: the send queue of an expiring client); a deferred Close inside the redial loop does not count as closing the carrier before the next dial; the clock that stamps LastSeen is read with the map lock held.",
+		Explanation: "E-GUARD + E-PAIR + E-CHAN + E-PROV on common/turbotunnel. O-1 errors only after close: in RedialPacketConn.ReadFrom/WriteTo every return with a non-nil error is reachable only through a '<-closed' select case; closed is closed only in closeWithError, called only from Close and from the err != nil edge of dialContext. O-2 one carrier at a time, each closed: in dialLoop a carrier obtained on the err == nil edge reaches conn.Close() on every path before the next dial or a return; exchange is called synchronously. O-3 no goroutine outlives its carrier: in every goroutine literal of the package each blocking select has a case on the connection's closed channel, and each unconditional send goes to a channel made by the enclosing call whose constant capacity covers the sends the goroutine can perform before returning. O-4 copy-on-enqueue, never block: every send on a packet queue is inside a select with default and sends a slice made by this invocation, filled by copy from the caller's buffer, of the caller's length; no []byte parameter flows into a send, a struct field or a global; both ReadFrom methods return copy(p, queued). O-5 close-once and publication order: close(closed) only inside closeOnce.Do and after err.Store. O-6 closed means failed: ReadFrom/WriteTo/QueueIncoming test closed (polling) before touching a queue. O-7 expiry shape: removeExpired pops only while now.Sub(oldest.LastSeen) >= timeout with the unscaled timeout; Less orders by LastSeen.Before; the sweeper sleeps timeout/2 and passes the same timeout; SendQueue refreshes LastSeen before heap.Fix/heap.Push; Pop closes the removed queue. Each clause is necessary: e.g. an unbuffered error channel retains one goroutine and carrier per redial. Added after the second seeding round: O-7 also requires that Push/Pop/Swap of clientMapInner have no static caller outside the interface methods (container/heap only); named methods started with go count as goroutine bodies when that go statement is their only use. Added after the third seeding round: the writer goroutine of exchange signals its end on every return (close or send on writeErrCh); the sweeper reads the clock after its sleep; the expiry function is identified by shape if renamed. Added after the fourth seeding round: O-8/C05 the client-map index obligations (Swap, Push, Pop, SendQueue keep byAddr equal to the heap position; no stale index after heap.Fix); the queue of a removed record may be closed by Pop or by every caller of heap.Pop/heap.Remove. Added after the fifth seeding round: O-5b a channel that is both closed and sent on has one mutex held at the close and at every send (D23: the send queue of an expiring client); a deferred Close inside the redial loop does not count as closing the carrier before the next dial; the clock that stamps LastSeen is read with the map lock held. Added after the sixth seeding round and the mutation audit: O-10 E-CLEANUP on turbotunnel, server/lib and websocketconn; O-11 one far-end address across carriers; O-11/C20 the guarded-by rows of the client map.",
 		NotDecided:  "FIFO order of Go channels (language guarantee), actual timing of the sweeper, KCP behaviour above the adapters.",
 		Assumptions: []string{"conn.Close() unblocks a carrier's pending ReadFrom/WriteTo (net.PacketConn contract)", "Go channel semantics"},
 	}, runC17)
@@ -24,6 +24,21 @@ func runC17(c *Ctx) {
 		c.analysedFn(p.FnName(fn))
 	}
 
+	// ---------- O-10: a failed step releases what the earlier steps created (no leaked conns/goroutines) ----------
+	c.checkCleanupOnErrorPaths("O-10 failure returns release what was created", append(append(append([]*ssa.Function{}, tt...), p.FnsIn("server/lib")...), p.FnsIn("common/websocketconn")...))
+
+	// the client map's index and heap are rewritten by every lookup: only under the map's mutex (C20's rows)
+	{
+		var rows []guardRow
+		for _, r := range guardTable {
+			if r.Type == "ClientMap" || r.Type == "clientMapInner" {
+				rows = append(rows, r)
+			}
+		}
+		c.prefix = "O-11/C20:"
+		c.checkGuardRows("O-1 guarded-by table", rows, tt)
+		c.prefix = ""
+	}
 	// ---------- O-1 / O-6: errors only after close; closed means failed ----------
 	c.checkErrorsOnlyAfterClose("RedialPacketConn", "QueuePacketConn")
 	if qi := p.Fn("common/turbotunnel", "(*QueuePacketConn).QueueIncoming"); qi != nil {
@@ -40,58 +55,8 @@ func runC17(c *Ctx) {
 		}
 		c.check(ok, "O-6 closed means failed", "QueuePacketConn.QueueIncoming drops after close", p.Pos(qi.Pos()), "", "incoming packets are queued without testing the closed channel first")
 	}
-	// who closes `closed`, who calls closeWithError
-	for _, typ := range []string{"RedialPacketConn", "QueuePacketConn"} {
-		cwe := p.Fn("common/turbotunnel", "(*"+typ+").closeWithError")
-		if cwe == nil {
-			c.undecided("O-5 close-once and publication order", typ+".closeWithError", "-", "anchor does not resolve")
-			continue
-		}
-		nClose := 0
-		for _, fn := range tt {
-			for _, op := range chanOpsIn(p, fn) {
-				if op.Dir != chClose || op.Class != typ+".closed" {
-					continue
-				}
-				nClose++
-				inOnce := onceClosure(p, fn) && fn.Parent() == cwe
-				// err.Store precedes close
-				stored := false
-				for _, ci := range callsTo(fn, "(*sync/atomic.Value).Store") {
-					if _, f, ok := fieldOfAddr(ci.Common().Args[0]); ok && f.Name() == "err" && precedes(ci, op.Instr) {
-						stored = true
-					}
-				}
-				c.check(inOnce, "O-5 close-once and publication order", typ+": close(closed) inside closeOnce.Do of closeWithError", p.instrPos(op.Instr), "", "closed is closed outside the once-guarded closure: a second Close panics")
-				c.check(stored, "O-5 close-once and publication order", typ+": err.Store precedes close(closed)", p.instrPos(op.Instr), "", "readers load the error after observing closed; storing it after the close makes Load().(error) panic on a nil value")
-			}
-		}
-		if nClose != 1 {
-			c.viol("O-5 close-once and publication order", typ+": one close site of closed", p.Pos(cwe.Pos()), fmt.Sprintf("%d close sites", nClose))
-		}
-		if typ == "RedialPacketConn" {
-			for _, ci := range p.realCallers(cwe) {
-				caller := ci.Parent()
-				switch caller.Name() {
-				case "Close":
-					c.ok("O-1 errors only after close", "closeWithError called from Close", p.instrPos(ci), "")
-				case "dialLoop":
-					var dial *ssa.Call
-					for _, c2 := range callsIn(caller) {
-						if cc, ok := c2.(*ssa.Call); ok {
-							if _, f, okf := fieldLoad(cc.Call.Value); okf && f.Name() == "dialContext" {
-								dial = cc
-							}
-						}
-					}
-					good := dial != nil && len(errEdges(caller, dial, 1, false)) > 0 && reachableWithout(caller, ci, errEdges(caller, dial, 1, false)) == nil
-					c.check(good, "O-1 errors only after close", "dialLoop closes the connection only when dialContext failed", p.instrPos(ci), "", "closeWithError is reachable in dialLoop without a dial failure: a carrier fault becomes a fatal error")
-				default:
-					c.viol("O-1 errors only after close", "closeWithError called from "+p.FnName(caller), p.instrPos(ci), "the connection is closed with an error from a place other than Close and the failed-dial edge")
-				}
-			}
-		}
-	}
+	c.checkCloseOncePublication(tt)
+	c.checkRedialAddress()
 
 	// ---------- O-2 one carrier at a time, each closed ----------
 	if dl := p.Fn("common/turbotunnel", "(*RedialPacketConn).dialLoop"); dl != nil {
@@ -670,6 +635,42 @@ func (c *Ctx) checkExpiry() {
 				return okf && f.Name() == "LastSeen"
 			}, "a store to clientRecord.LastSeen", "a client's record is never refreshed: its queue expires while it is in use")
 		}
+		// ... on every path: no heap.Fix/heap.Push of SendQueue is reached without a LastSeen store before it (the
+		// record that is found must be refreshed just as the new one is stamped)
+		{
+			storeAt := map[*ssa.BasicBlock]int{}
+			for _, st := range storesToField([]*ssa.Function{sq}, lsF) {
+				if i, seen := storeAt[st.Block()]; !seen || instrIndex(st) < i {
+					storeAt[st.Block()] = instrIndex(st)
+				}
+			}
+			for _, ci := range callsTo(sq, "container/heap.Fix", "container/heap.Push") {
+				reached := false
+				seen := map[*ssa.BasicBlock]bool{}
+				var walk func(b *ssa.BasicBlock)
+				walk = func(b *ssa.BasicBlock) {
+					if seen[b] || reached {
+						return
+					}
+					seen[b] = true
+					si, hasStore := storeAt[b]
+					if b == ci.Block() && (!hasStore || si > instrIndex(ci)) {
+						reached = true
+						return
+					}
+					if hasStore {
+						return
+					}
+					for _, sb := range b.Succs {
+						walk(sb)
+					}
+				}
+				if len(sq.Blocks) > 0 {
+					walk(sq.Blocks[0])
+				}
+				c.check(!reached, rule, "SendQueue refreshes LastSeen on the way to "+strings.TrimPrefix(calleeName(ci), "container/"), p.instrPos(ci), "", "the heap is re-ordered for a record whose LastSeen was not set on this path: a client that keeps sending is still expired clientMapTimeout after its first packet, and its session dies with its queue")
+			}
+		}
 		// heap.Fix on the found index
 		okFix := false
 		for _, ci := range callsTo(sq, "container/heap.Fix") {
@@ -781,5 +782,89 @@ func (c *Ctx) checkErrorsOnlyAfterClose(types ...string) {
 			// O-6: the first channel operation is a polling test of closed
 			c.check(firstOp != nil && firstOp.Class == closedCls && firstOp.Mode == "polling", "O-6 closed means failed", typ+"."+m+" tests closed before touching a queue", p.Pos(fn.Pos()), "", "the operation touches a queue before (or without) a non-blocking test of the closed channel")
 		}
+	}
+}
+
+// checkCloseOncePublication: close(closed) only inside closeOnce.Do of closeWithError and after err.Store; who
+// calls closeWithError.
+func (c *Ctx) checkCloseOncePublication(tt []*ssa.Function) {
+	p := c.P
+	// who closes `closed`, who calls closeWithError
+	for _, typ := range []string{"RedialPacketConn", "QueuePacketConn"} {
+		cwe := p.Fn("common/turbotunnel", "(*"+typ+").closeWithError")
+		if cwe == nil {
+			c.undecided("O-5 close-once and publication order", typ+".closeWithError", "-", "anchor does not resolve")
+			continue
+		}
+		nClose := 0
+		for _, fn := range tt {
+			for _, op := range chanOpsIn(p, fn) {
+				if op.Dir != chClose || op.Class != typ+".closed" {
+					continue
+				}
+				nClose++
+				inOnce := onceClosure(p, fn) && fn.Parent() == cwe
+				// err.Store precedes close
+				stored := false
+				for _, ci := range callsTo(fn, "(*sync/atomic.Value).Store") {
+					if _, f, ok := fieldOfAddr(ci.Common().Args[0]); ok && f.Name() == "err" && precedes(ci, op.Instr) {
+						stored = true
+					}
+				}
+				c.check(inOnce, "O-5 close-once and publication order", typ+": close(closed) inside closeOnce.Do of closeWithError", p.instrPos(op.Instr), "", "closed is closed outside the once-guarded closure: a second Close panics")
+				c.check(stored, "O-5 close-once and publication order", typ+": err.Store precedes close(closed)", p.instrPos(op.Instr), "", "readers load the error after observing closed; storing it after the close makes Load().(error) panic on a nil value")
+			}
+		}
+		if nClose != 1 {
+			c.viol("O-5 close-once and publication order", typ+": one close site of closed", p.Pos(cwe.Pos()), fmt.Sprintf("%d close sites", nClose))
+		}
+		if typ == "RedialPacketConn" {
+			for _, ci := range p.realCallers(cwe) {
+				caller := ci.Parent()
+				switch caller.Name() {
+				case "Close":
+					c.ok("O-1 errors only after close", "closeWithError called from Close", p.instrPos(ci), "")
+				case "dialLoop":
+					var dial *ssa.Call
+					for _, c2 := range callsIn(caller) {
+						if cc, ok := c2.(*ssa.Call); ok {
+							if _, f, okf := fieldLoad(cc.Call.Value); okf && f.Name() == "dialContext" {
+								dial = cc
+							}
+						}
+					}
+					good := dial != nil && len(errEdges(caller, dial, 1, false)) > 0 && reachableWithout(caller, ci, errEdges(caller, dial, 1, false)) == nil
+					c.check(good, "O-1 errors only after close", "dialLoop closes the connection only when dialContext failed", p.instrPos(ci), "", "closeWithError is reachable in dialLoop without a dial failure: a carrier fault becomes a fatal error")
+				default:
+					c.viol("O-1 errors only after close", "closeWithError called from "+p.FnName(caller), p.instrPos(ci), "the connection is closed with an error from a place other than Close and the failed-dial edge")
+				}
+			}
+		}
+	}
+
+}
+
+// checkRedialAddress: RedialPacketConn presents one far end to the KCP engine above it, whatever carrier a packet
+// arrived on: every successful ReadFrom reports the connection's own remoteAddr. kcp-go's client side keeps the
+// address of the first packet and discards packets that report another one.
+func (c *Ctx) checkRedialAddress() {
+	p := c.P
+	rule := "O-11 one far-end address across carriers"
+	rf := p.Fn("common/turbotunnel", "(*RedialPacketConn).ReadFrom")
+	if rf == nil {
+		c.undecided(rule, "RedialPacketConn.ReadFrom", "-", "anchor does not resolve")
+		return
+	}
+	n := 0
+	for _, r := range returnsOf(rf) {
+		if len(r.Results) != 3 || !isNilConst(strip(retVal(r, 2))) {
+			continue
+		}
+		n++
+		_, f, ok := fieldLoad(retVal(r, 1))
+		c.check(ok && f.Name() == "remoteAddr", rule, "RedialPacketConn.ReadFrom reports its own remote address", p.instrPos(r), "", "a successful read reports an address other than the connection's remoteAddr field (the carrier's, for example): the KCP client accepts packets from the first address it saw only, so everything received through a later carrier is discarded and the stream stalls after the first proxy replacement")
+	}
+	if n == 0 {
+		c.undecided(rule, "RedialPacketConn.ReadFrom reports its own remote address", p.Pos(rf.Pos()), "no successful return found")
 	}
 }
